@@ -143,6 +143,11 @@ def run(tier, seed):
             oi3 = sp.bss_eval_images(r3 * 2.5, e3 * 2.5)
             imgscaleok = bool(all(np.allclose(a, b, atol=1e-5) for a, b in zip(oi[2:4], oi2[2:4])) and list(oi[4]) == list(oi2[4])
                               and all(np.allclose(a, b, atol=1e-5) for a, b in zip(oi[:4], oi3[:4])) and list(oi[4]) == list(oi3[4]))
+            # the property's sentence read literally also for the image metrics: all four measures under independent rescaling
+            imgfullok = bool(all(np.allclose(a, b, atol=1e-5) for a, b in zip(oi[:4], oi2[:4])))
+            add({"kind": "imgscale", "imgfullok": imgfullok, "n": nsrc}, {"what": "imgscale", "images": True, "nsrc": nsrc,
+                                                                           "sdr": [oi[0].tolist(), oi2[0].tolist()], "isr": [oi[1].tolist(), oi2[1].tolist()],
+                                                                           "gains_est": c.ravel().tolist(), "gains_ref": c2.ravel().tolist()})
             if nsrc == 2:
                 d = sp.evaluate(ref, est)
                 keys = ["Images - Source to Distortion", "Images - Image to Spatial", "Images - Source to Interference", "Images - Source to Artifact",
@@ -180,7 +185,7 @@ def run(tier, seed):
             add({"kind": "empty", "images": images, "arity": len(out)}, {"what": "empty input", "fn": fn.__name__})
     full = {"kind": "", "L": 0, "window": 1, "hop": 1, "refs": [], "ests": [], "images": False, "exc": "ok", "arity": 0, "cols": 0, "nan": [],
             "sliceeq": True, "fallbackeq": True, "n": 0, "sir": [], "perm": [], "decompok": True, "scaleok": True, "imgdecompok": True,
-            "imgscaleok": True, "evalok": True, "pi": [], "perm2": [], "minsdr": 0}
+            "imgscaleok": True, "evalok": True, "pi": [], "perm2": [], "minsdr": 0, "imgfullok": True}
     payload = [dict(full, **e) for e in events]
     rejects, st = trace.validate_par("Trace_C19", payload)
     ev.tlc("Trace_C19", st, "verdicts on recorded separation outcomes")
